@@ -38,7 +38,11 @@ def _model_dict(m, limit=400):
 STAGES = [(0, {'smt.mbqi': False, 'smt.arith.nl': False}), (0, {'smt.mbqi': False}),
           (4, {'smt.mbqi': False, 'smt.arith.nl': False}), (4, {'smt.mbqi': False}),
           (12, {'smt.mbqi': False, 'smt.arith.nl': False}), (12, {'smt.mbqi': False}), (40, {'smt.mbqi': False}),
-          (None, {'smt.mbqi': False, 'smt.arith.nl': False}), (None, {'smt.mbqi': False}), (None, {})]
+          (None, {'smt.mbqi': False, 'smt.arith.nl': False}), (None, {'smt.mbqi': False}), (None, {}),
+          # everything EXCEPT the most recent quantified hypotheses (intermediate lemma steps meant for other goals)
+          (-6, {'smt.mbqi': False}), (-14, {'smt.mbqi': False})]
+
+FULL_STAGE = STAGES.index((None, {}))      # every hypothesis, default options: the only configuration whose `sat` is believed
 
 
 def _stage(args):
@@ -63,14 +67,16 @@ def _stage(args):
             for a in list(full)[:-1]:
                 sx = a.sexpr()
                 (quant if ('(forall ' in sx or '(exists ' in sx) else qf).append(a)
-            full_hyps = k >= len(quant)
+            full_hyps = k >= len(quant) if k >= 0 else False
             s.add(*qf)
-            if k:
+            if k > 0:
                 s.add(*quant[-k:])
+            elif k < 0:
+                s.add(*quant[:k])
             s.add(goal_neg)
         r = s.check()
         dt = time.time() - t0
-        tag = 'z3:%s%s' % ('all-hyps' if k is None else 'qf+last%dq' % k, ''.join(',' + o.split('.')[-1] + '=off' for o in opts))
+        tag = 'z3:%s%s' % ('all-hyps' if k is None else ('qf+last%dq' % k if k >= 0 else 'all-but-last%dq' % -k), ''.join(',' + o.split('.')[-1] + '=off' for o in opts))
         if r == z3.unsat:
             return (name, stage_id, REFUTED if expect_sat else PROVED, dt, None, tag)
         if r == z3.sat and full_hyps:
@@ -91,7 +97,7 @@ def _check(args):
     name, smt, timeout_ms, expect_sat, want_model = args
     t0 = time.time()
     last = None
-    stages = [len(STAGES) - 1] if expect_sat else range(len(STAGES))
+    stages = [FULL_STAGE] if expect_sat else range(len(STAGES))
     for sid in stages:
         r = _stage((name, sid, smt, timeout_ms if (sid >= 7 or expect_sat) else max(300, timeout_ms // 10), expect_sat, want_model))
         last = r
@@ -171,7 +177,7 @@ def discharge(obls, timeout_s=10, procs=None, use_cvc5=True, log=None):
     hints = load_hints()
     for n, ob in enumerate(obls):
         if ob.expect_sat:
-            jobs.append((n, len(STAGES) - 1, smts[n], budget(n), True, False))
+            jobs.append((n, FULL_STAGE, smts[n], budget(n), True, False))
         else:
             sid = hints.get(hint_key(ob))
             if isinstance(sid, int) and 0 <= sid < len(STAGES):
